@@ -128,6 +128,10 @@ func c16fields() []c16field {
 		{name: "ALB", typ: reflect.TypeOf(""), tag: `yaml:"al" aliases:"al2"`, key: "al", aliases: []string{"al2"},
 			vals: []c16val{{`"a1"`, "a1", false}},
 			zero: "", sentinel: func() reflect.Value { return rv("SENT") }, sentNorm: "SENT"},
+		// alias names with an underscore and a hyphen (a tag is a comma-separated list, nothing else separates)
+		{name: "ALP", typ: reflect.TypeOf(""), tag: `yaml:"alp" aliases:"depends_on,soft-fail"`, key: "alp", aliases: []string{"depends_on", "soft-fail"},
+			vals: []c16val{{`"p1"`, "p1", false}},
+			zero: "", sentinel: func() reflect.Value { return rv("SENT") }, sentNorm: "SENT"},
 		{name: "PA", typ: reflect.TypeOf((*string)(nil)), tag: `yaml:"pa,omitempty" aliases:"pa1"`, key: "pa", aliases: []string{"pa1"}, nillable: true,
 			vals: []c16val{{`"p1"`, "p1", false}, {`""`, "", false}},
 			zero: c16nilPtr, sentinel: func() reflect.Value { s := "SENT"; return rv(&s) }, sentNorm: "SENT"},
@@ -135,9 +139,11 @@ func c16fields() []c16field {
 }
 
 var c16aliasVals = map[string][]c16val{
-	"al1": {{`"b1"`, "b1", false}, {`"b2"`, "b2", false}},
-	"al2": {{`"c1"`, "c1", false}},
-	"pa1": {{`"q1"`, "q1", false}},
+	"al1":        {{`"b1"`, "b1", false}, {`"b2"`, "b2", false}},
+	"al2":        {{`"c1"`, "c1", false}},
+	"pa1":        {{`"q1"`, "q1", false}},
+	"depends_on": {{`"d1"`, "d1", false}},
+	"soft-fail":  {{`"s1"`, "s1", false}},
 }
 
 type c16type struct {
@@ -275,6 +281,8 @@ var c16extraVals = map[string][]c16val{
 	"":         {{`"e1"`, "e1", true}},
 	"q":        {{`"q1"`, "q1", true}},
 	"softfail": {{`"lc"`, "lc", true}},
+	"on":       {{`"frag1"`, "frag1", true}},
+	"fail":     {{`"frag2"`, "frag2", true}},
 	"r":        {{`[4]`, []any{4}, true}},
 }
 
@@ -565,6 +573,13 @@ func c16keysOf(t c16type) []string {
 		if lc := strings.ToLower(f.key); lc != f.key {
 			keys = append(keys, lc)
 		}
+		// fragments of aliases that contain punctuation are unknown keys
+		for _, a := range f.aliases {
+			if strings.ContainsAny(a, "_-") && len(t.fields) == 1 {
+				keys = append(keys, "on", "fail")
+				break
+			}
+		}
 	}
 	if t.inline == "struct" {
 		keys = append(keys, "q", "r")
@@ -795,8 +810,8 @@ func c16run(w *report.W) {
 func init() {
 	register(&report.Check{
 		ID: "C16",
-		Rule: "programs x inputs: every struct type built with reflect.StructOf from <=2 (quick) / <=3 (thorough) fields of a 20-field alphabet (string,int,bool,float64,[]string,[]int," +
-			"map[string]string,map[string]any,any,nested struct,pointer to struct,*ordered.Map[string,struct],*ordered.Map[string,[]string],untagged,a tag with upper-case letters (plus its lower-case look-alike as an unknown key),yaml:\"-\",four alias-carrying fields two of which share a primary key with an alias-free or differently aliased field) x inline part in {none,map[string]any,*ordered.MapSA,struct}; " +
+		Rule: "programs x inputs: every struct type built with reflect.StructOf from <=2 (quick) / <=3 (thorough) fields of a 21-field alphabet (string,int,bool,float64,[]string,[]int," +
+			"map[string]string,map[string]any,any,nested struct,pointer to struct,*ordered.Map[string,struct],*ordered.Map[string,[]string],untagged,a tag with upper-case letters (plus its lower-case look-alike as an unknown key),yaml:\"-\",five alias-carrying (one with `_` and `-` in its alias names, whose fragments are offered as unknown keys), fields two of which share a primary key with an alias-free or differently aliased field) x inline part in {none,map[string]any,*ordered.MapSA,struct}; " +
 			"for each type every document over its keys + aliases + an unknown key + the empty-string key (+ the inline struct's keys), each key absent / null / one of its 2-5 values, " +
 			"in forward and reversed key order, into a sentinel-prefilled and a zero destination; plus, for the one- and two-field types, documents with 9 / 63 / 64 / 65 / 129 unknown keys in front of or behind the type's own keys; compared with the partition rule (field values, inline content and order) and, for alias-free " +
 			"well-typed cases, with yaml.v3's Node.Decode into the same reflect type. Non-trivial = at least one key present.",
